@@ -9,7 +9,7 @@ from __future__ import annotations
 
 import itertools
 from collections import Counter
-from dataclasses import dataclass
+from dataclasses import dataclass, field
 from typing import Any
 
 from entity_query_language import symbol
@@ -44,13 +44,25 @@ class N:
     b: Any
     c: Any
 
+    def big(self):
+        return self.a > 2
+
+    def hi(self):
+        return self.c > 2
+
     def __repr__(self):
         return f"N({self.a},{self.b},{self.c})"
 
 
 @symbol
 @dataclass(eq=False)
-class Out:
+class OutBase:
+    world: Any = field(default=None, kw_only=True)       # inherited keyword-only field: not the first positional one
+
+
+@symbol
+@dataclass(eq=False)
+class Out(OutBase):
     tag: Any = ""
     src: Any = None
     link: Any = None
@@ -141,7 +153,7 @@ def plan(tier, seed):
 def floors(tier):
     return {"distinct_nontrivial": 300, "re:ExceptIf(@.*)?\\.enter": 500, "re:Alternative(@.*)?\\.enter": 500,
             "cls:shape:ref_in_ref": 20, "cls:shape:ref_in_alt": 20, "cls:shape:alt_in_ref": 20, "cls:shape:alt_chain": 20,
-            "cls:overridden": 200, "cls:alt_fired": 200, "cls:caching_off": 50,
+            "cls:overridden": 200, "cls:alt_fired": 200, "cls:caching_off": 50, "cls:conclusions_spelled_positionally": 100, "cls:bare_call_as_branch_condition": 150,
             "cls:style:sibling_alternatives": 200, "cls:join_in_tree": 300, "cls:tree_extended_after_it_was_evaluated": 150, "cls:join_item_with_two_links": 200, "cls:alternative_declared_before_refinement": 200, "re:cls:longest_alternative_chain=[3-9]": 50}
 
 
@@ -152,6 +164,8 @@ def _rand_cond(rng, depth=0):
         return ["cmp2", a1, a2]                     # literal-free: the operator caches are actually consulted
     if k < 0.45 and depth == 0:
         return ["and2", _rand_cond(rng, 1), _rand_cond(rng, 1)]
+    if k < 0.6:
+        return [rng.choice(["bare", "bare", "nbare"]), rng.choice(["big", "hi"])]
     return [rng.choice("abc"), rng.randint(0, 3)]
 
 
@@ -161,7 +175,7 @@ def gen_case(rng):
     conds = [_rand_cond(rng) for _ in range(n)]
     data = [[rng.randint(1, 4) for _ in range(3)] for _ in range(rng.randint(3, 7))]
     return {"tree": label(sh, conds), "data": data, "caching": rng.random() < 0.7, "sibling": rng.random() < 0.5,
-            "alt_first": rng.random() < 0.4, "incremental": rng.random() < 0.4}
+            "alt_first": rng.random() < 0.4, "incremental": rng.random() < 0.4, "positional": rng.random() < 0.3}
 
 
 def gen_join_case(rng):
@@ -233,6 +247,10 @@ def holds(cond, o):
         return getattr(o, cond[1]) > getattr(o, cond[2])
     if cond[0] == "and2":
         return holds(cond[1], o) and holds(cond[2], o)
+    if cond[0] == "bare":        # a bare method call as the whole condition of a branch: x.big()
+        return bool(getattr(o, cond[1])())
+    if cond[0] == "nbare":       # ... and its negation: not_(x.big())
+        return not getattr(o, cond[1])()
     return getattr(o, cond[0]) > cond[1]
 
 
@@ -242,6 +260,11 @@ def sym(cond, x):
         return [getattr(x, cond[1]) > getattr(x, cond[2])]
     if cond[0] == "and2":
         return sym(cond[1], x) + sym(cond[2], x)
+    if cond[0] == "bare":
+        return [getattr(x, cond[1])()]
+    if cond[0] == "nbare":
+        from entity_query_language import not_
+        return [not_(getattr(x, cond[1])())]
     return [getattr(x, cond[0]) > cond[1]]
 
 
@@ -334,6 +357,9 @@ def _build_join_branch(node, x, l, out, bound, sibling, alt_first, with_alt=True
         declare_alternatives()
 
 
+POSITIONAL_CONCLUSIONS = [False]      # set per case by build(): conclusions spelled Out(tag, x) instead of Out(tag=tag, src=x)
+
+
 def _build_branch(node, x, out, sibling=False, with_alt=True, alt_first=False):
     """sibling=False: every alternative is declared inside the `with` block of the branch before it (nested style);
     sibling=True : the alternatives of a chain are declared one after the other at the same level (the style of the
@@ -342,7 +368,7 @@ def _build_branch(node, x, out, sibling=False, with_alt=True, alt_first=False):
     from entity_query_language import Add
     from entity_query_language.rule import refinement, alternative
     cond, tag, ref, alt = node
-    Add(out, Out(tag=tag, src=x))
+    Add(out, Out(tag, x) if POSITIONAL_CONCLUSIONS[0] else Out(tag=tag, src=x))
 
     def declare_refinement():
         if ref is not None:
@@ -374,6 +400,7 @@ def build(case, objs, links=None):
     from entity_query_language import symbolic_mode, let, entity, infer
     from entity_query_language.symbolic import rule_mode
     tree = case["tree"]
+    POSITIONAL_CONCLUSIONS[0] = bool(case.get("positional"))
     with symbolic_mode():
         x = let(N, objs)
         out = let(Out)
@@ -486,6 +513,10 @@ def check_case(case, ctx):
     if case.get("alt_first") and _has_ref_and_alt(case["tree"]):
         ctx.cls("cls:alternative_declared_before_refinement")
     ctx.cls("cls:caching_on" if case["caching"] else "cls:caching_off")
+    if case.get("positional"):
+        ctx.cls("cls:conclusions_spelled_positionally")
+    if "bare" in repr(case["tree"]):
+        ctx.cls("cls:bare_call_as_branch_condition")
     tags = {r[0] for r in exp}
     if case.get("join"):
         overridden = any(r[0] != case["tree"][1] for r in exp)
